@@ -330,6 +330,49 @@ def fn_to_sympy(
         return None
 
 
+def _always_returns(body: list[ast.stmt]) -> bool:
+    """Whether every path through the statements ends in a return."""
+    for node in body:
+        if isinstance(node, ast.Return):
+            return True
+        if (
+            isinstance(node, ast.If)
+            and _always_returns(node.body)
+            and _always_returns(node.orelse)
+        ):
+            return True
+    return False
+
+
+def _check_branch(branch: list[ast.stmt], rest: list[ast.stmt]) -> None:
+    """Refuse a branch that falls through in a way the Piecewise cannot express.
+
+    A branch that does not return contributes the value of the last name it
+    assigns. That is the value of the function only if the branch consists of
+    plain assignments and all that follows the if is `return <that name>`.
+    """
+    if _always_returns(branch):
+        return
+    plain = bool(branch) and all(
+        isinstance(node, ast.Assign)
+        and len(node.targets) == 1
+        and isinstance(node.targets[0], ast.Name)
+        for node in branch
+    )
+    if plain and not rest:
+        return
+    if (
+        plain
+        and len(rest) == 1
+        and isinstance(ret := rest[0], ast.Return)
+        and isinstance(ret.value, ast.Name)
+        and cast(ast.Name, cast(ast.Assign, branch[-1]).targets[0]).id == ret.value.id
+    ):
+        return
+    msg = "Branch without return is followed by more than `return <its last name>`"
+    raise NotImplementedError(msg)
+
+
 def _handle_fn_body(body: list[ast.stmt], ctx: Context) -> sympy.Expr | None:
     pieces = []
     remaining_body = list(body)
@@ -339,6 +382,7 @@ def _handle_fn_body(body: list[ast.stmt], ctx: Context) -> sympy.Expr | None:
 
         if isinstance(node, ast.If):
             condition = _handle_expr(node.test, ctx)
+            _check_branch(node.body, remaining_body)
             # Each branch works on its own copy of the symbol table: what it
             # assigns must not be visible on the paths that do not take it
             if_expr = _handle_fn_body(
@@ -354,6 +398,7 @@ def _handle_fn_body(body: list[ast.stmt], ctx: Context) -> sympy.Expr | None:
                     remaining_body.insert(0, node.orelse[0])
                 else:
                     # It's a regular else
+                    _check_branch(node.orelse, remaining_body)
                     else_expr = _handle_fn_body(
                         node.orelse, ctx.updated(symbols=dict(ctx.symbols))
                     )
